@@ -421,7 +421,6 @@ func c35transferCase(c *rig.Ctx, srv *sqlrig.Server, dir string, port, i int, tl
 	if skip(script(z, fmt.Sprintf("insert into t0 (pk,a,b) values (%d,3,'%s')", 700000+i, randStr(r, 60)), "call dolt_commit('-Am','clone-diverge')")) {
 		return
 	}
-	before := dirListing(remDir)
 	if err := script(z, "call dolt_push('origin','main')"); err == nil {
 		ch2, _ := branchHeads(y, cl)
 		viol("c35/push/nonff-accepted", fmt.Sprintf("a push without --force of %s onto remote head %s (diverged) was accepted", ch2["main"], sh["main"]), nil)
@@ -434,7 +433,6 @@ func c35transferCase(c *rig.Ctx, srv *sqlrig.Server, dir string, port, i int, tl
 			viol("c35/rejected-push/remote-closure", fmt.Sprintf("after a rejected push the remote has dangling chunks: %v", rep.Problems), nil)
 		}
 	}
-	_ = before
 	// pull with merge, push the merge
 	if err := script(z, "call dolt_pull('origin','main')"); err != nil {
 		viol("c35/pull/error", "pull with merge of disjoint rows failed: "+err.Error(), nil)
